@@ -844,23 +844,29 @@ func (c *rowopsCtx) checkOrder(row jsonline.Row, ref *refOrder, hist string) {
 		}
 	}
 	c.rep.OracleChecks["C06"]++
-	// serialisation follows the same order
-	if b, err := row.MarshalJSON(); err == nil {
-		pos := 0
-		s := string(b)
-		for _, k := range keys {
-			v, _ := row.GetValue(k)
-			if v.GetFormat() == jsonline.Hidden {
-				continue
-			}
-			kb, _ := json.Marshal(k)
-			i := strings.Index(s[pos:], string(kb)+":")
-			if i < 0 {
-				c.violate("C06", fmt.Sprintf("serialisation %s does not list key %q after the keys before it", s, k), in)
-				break
-			}
-			pos += i + len(kb)
+	// serialisation follows the same order: the text is one JSON object whose member names are the visible keys, in order
+	var b []byte
+	var err error
+	if p, msg := guard(func() { b, err = row.MarshalJSON() }); p {
+		c.violate("C06", "MarshalJSON panics on the row: "+msg, in)
+		return
+	}
+	if err != nil {
+		return
+	}
+	var visible []string
+	for _, k := range keys {
+		if v, _ := row.GetValue(k); v != nil && v.GetFormat() != jsonline.Hidden {
+			visible = append(visible, k)
 		}
+	}
+	tree, perr := refTree(b)
+	if perr != nil || tree.kind != 'o' {
+		c.violate("C06", fmt.Sprintf("serialisation %q is not a JSON object listing the keys %q (%v)", b, visible, perr), in)
+		return
+	}
+	if fmt.Sprintf("%q", tree.keys) != fmt.Sprintf("%q", visible) {
+		c.violate("C06", fmt.Sprintf("serialisation %s lists the members %q, the row's visible keys in first-insertion order are %q", b, tree.keys, visible), in)
 	}
 }
 
@@ -1014,6 +1020,19 @@ func (c *rowopsCtx) history(nops int) string {
 				case 2: // not an object
 					txt = "[" + txt + "]"
 					members = nil
+					okSyntax = "false"
+				case 3: // the text breaks INSIDE the value of a member (or right after its name): the members before it were read
+					i := r.intn(len(doc.keys) + 1)
+					sub := &jnode{kind: 'o', keys: doc.keys[:i], kids: doc.kids[:i]}
+					var sb2 strings.Builder
+					sub.text(&sb2)
+					txt = strings.TrimSuffix(strings.TrimRight(sb2.String(), " \t\r\n"), "}")
+					if i > 0 {
+						txt += ","
+					}
+					kb, _ := json.Marshal(genKey(r))
+					txt += string(kb) + []string{`:[1,}`, `:`, ``, `:{"x":`, `:tru`, `:"abc`, `:[1,{"y":2},`, `:1e`, `:]`}[r.intn(9)]
+					members = members[:i]
 					okSyntax = "false"
 				}
 				desc = describeOp("UnmarshalJSON", txt)
